@@ -68,6 +68,40 @@ func (l *List[T]) Push(v T) *List[T] { return l }
 func (l *List[T]) Each(f func(T) bool) {}
 func (p Pair[K, V]) Swap() Pair[K, K] { var z Pair[K, K]; return z }
 
+// aliases of named types and of instantiations, in every position in which a type can
+// occur (identical to the spelling with the target)
+type AN1 = N1
+type AN2 = N2
+type AAN1 = AN1
+type AL = List[int]
+type AI1 = I1
+type IA1 interface{ M(N1) N2 }
+type IA2 interface{ M(AN1) AN2 }
+type IA3 interface{ M(AAN1) N2 }
+type IA4 interface{ F(List[int]) I1 }
+type IA5 interface{ F(AL) AI1 }
+type IA6 interface{ G(x ...N1); H() (N2, error) }
+type IA7 interface{ H() (AN2, error); G(x ...AN1) }
+
+var (
+	an1  struct{ f N1; g *N2 }
+	an2  struct{ f AN1; g *AN2 }
+	an3  map[N1][]N2
+	an4  map[AN1][]AN2
+	an5  func(N1, ...N2) List[int]
+	an6  func(AN1, ...AN2) AL
+	an7  interface{ M(N1) N2 }
+	an8  interface{ M(AN1) AN2 }
+	an9  chan [2]N1
+	an10 chan [2]AAN1
+	an11 interface{ F(func(N1) []N2) }
+	an12 interface{ F(func(AN1) []AN2) }
+	an13 List[N1]
+	an14 List[AN1]
+	an15 Pair[N1, List[int]]
+	an16 Pair[AAN1, AL]
+)
+
 type A1 = []int
 type A2 = map[string][]int
 type A3 = N2
